@@ -734,6 +734,11 @@ class NN:
         d = strip(d)
         if head(d) == "call":
             f = strip(d[1])
+            if head(f) == "lam":
+                # a new helper read through as a lambda: the distance is what its body computes
+                from .ssa import apply_lam
+                red = apply_lam(f, d[2], dict(d[3]))
+                return self.dist_of(q, red, mapping) if red is not None and strip(red) != d else None
             if len(d[2]) == 2 and not d[3]:
                 kind = {LEV: "LEV", HAM: "HAM", HAMREP: "HAMREP", CALLABLE: "CUST"}.get(f)
                 if kind:
